@@ -168,6 +168,7 @@ func runPids() {
 	const g = 16
 	per := n / g
 	parts := make([][]gen.PID, g)
+	lastInst := make([]*actors.Inst, g)
 	var wg sync.WaitGroup
 	for w := 0; w < g; w++ {
 		wg.Add(1)
@@ -175,7 +176,7 @@ func runPids() {
 			defer wg.Done()
 			s := make([]gen.PID, 0, per)
 			for i := 0; i < per; i++ {
-				f, _ := actors.NewRaw("pid", nil)
+				f, inst := actors.NewRaw("pid", nil)
 				var pid gen.PID
 				var err error
 				if i%8 == 0 {
@@ -188,6 +189,7 @@ func runPids() {
 					continue
 				}
 				s = append(s, pid)
+				lastInst[w] = inst
 				node.Kill(pid)
 			}
 			parts[w] = s
@@ -213,18 +215,27 @@ func runPids() {
 	if repeats > 0 {
 		r.fail("pid-repeat", "%d of %d spawned processes got a pid that had been handed out before (e.g. %s)", repeats, total, w)
 	}
-	gone := hk.WaitUntil(wd(), func() bool {
-		for _, p := range parts {
-			if len(p) > 0 {
-				if _, err := node.ProcessInfo(p[len(p)-1]); err == nil {
-					return false
-				}
+	// the last process of every spawner: after its terminate callback the pid must be unknown
+	done := hk.WaitUntil(wd(), func() bool {
+		for _, i := range lastInst {
+			if i != nil && (i.TermCount.Load() == 0 || !i.Quiet()) {
+				return false
 			}
 		}
 		return true
 	})
-	if !gone {
-		r.inconclusive("watchdog: spawned processes did not go away")
+	if !done {
+		r.inconclusive("watchdog: spawned processes did not terminate")
+	} else {
+		for _, p := range parts {
+			if len(p) == 0 {
+				continue
+			}
+			if _, err := node.ProcessInfo(p[len(p)-1]); err != gen.ErrProcessUnknown {
+				r.fail("pid-listed-after-termination", "ProcessInfo(%s) = %v after the process's terminate callback, want ErrProcessUnknown", p[len(p)-1], err)
+				break
+			}
+		}
 	}
 	finish(id, "ids", "pid/concurrent16", total >= n/2, int64(total), r, map[string]any{"spawns": total, "repeats": repeats})
 }
